@@ -151,6 +151,8 @@ def c04(p, sc, view):
             continue            # the user pinned its start
         if not fwd and v["end"] is not None:
             continue
+        if v["effort"] == 0 and (v["start"] is not None or v["end"] is not None):
+            continue            # a milestone has one date: pinning either pins it
         for (q, gap, onstart) in alle[fid]:
             qo = T.get(q)
             if qo is None or not qo["scheduled"]:
@@ -266,6 +268,10 @@ def c06(p, sc, view):
             fwd = o["forward"] is not False
             if fwd and v["start"] is None and v["end"] is None:
                 bound = p["start"]
+                for a in A.ancestors(fid):     # a container's start is a lower bound for its children
+                    if view[a]["start"] is not None:
+                        bound = max(bound, view[a]["start"])
+                        break
                 ok = True
                 for (q, gap, onstart) in alle[fid]:
                     qo = T.get(q)
@@ -344,19 +350,35 @@ def c08(p, sc, view, cal=None):
         if fwd:
             bound = v["start"] if v["start"] is not None else p["start"]
             if v["start"] is None:
+                for a in A.ancestors(fid):     # a container's start is a lower bound for its children
+                    if view[a]["start"] is not None:
+                        bound = max(bound, view[a]["start"])
+                        break
                 for (q, gap, onstart) in alle[fid]:
                     ref = T[q]["start"] if onstart else T[q]["end"]
                     if ref is not None:
                         bound = max(bound, ref + gap)
             lo, hi = bound, o["end"]
         else:
+            if any(onstart for (_, _, onstart) in alle[fid]):
+                continue        # on-start edges in backward mode give a deadline the property does not name
             # deadline: explicit end, earliest successor start minus gap, or project end
             dl = v["end"]
             if dl is None:
                 dl = sc.get("_end", A.end_of(p))
+                me = {fid} | set(A.ancestors(fid))
+                terminal = not any(q in me and not onstart for sid in T if T[sid]["leaf"] and sid != fid
+                                   for (q, gap, onstart) in alle.get(sid, []))
+                if terminal:
+                    for a in A.ancestors(fid):  # the nearest dated enclosing container is the deadline of its terminal tasks
+                        if view[a]["end"] is not None:
+                            dl = min(dl, view[a]["end"])
+                            break
                 for sid, so in T.items():
-                    for (q, gap, onstart) in own.get(sid, []):
-                        if q == fid and not onstart and so["scheduled"] and so["start"] is not None:
+                    if not so["leaf"] or sid == fid:
+                        continue
+                    for (q, gap, onstart) in alle.get(sid, []):
+                        if q in me and not onstart and so["scheduled"] and so["start"] is not None:
                             dl = min(dl, so["start"] - gap)
             if o["end"] > dl:
                 bad.append(f"ALAP task {fid} ends {o['end']} after its deadline {dl}")
